@@ -154,6 +154,10 @@ def play(ctx, rng, fam, seq, peer, box, label, batches=False):
         script.consumed = []
         if script.head() == "R":
             peer.refuse()
+        elif peer._want_refuse or peer.refusing.is_set():
+            # a refusal requested from inside the peer (to meet the transport's automatic retry) may be acknowledged
+            # only after the previous call has returned: the listener must be back before a non-refusal symbol
+            peer.accept_again()
         try:
             if mc is None:
                 out = ("return", proxy.echo(token))
